@@ -61,6 +61,12 @@ func propLedger(t *rapid.T) {
 		}
 	}
 	rec.Class(fmt.Sprintf("fee_ppk=%d", cfg.FeePpk))
+	if cfg.ViaCLN {
+		rec.Class("history_via_cln_adapter")
+	}
+	if cfg.ViaLND {
+		rec.Class("history_via_lnd_adapter")
+	}
 	rec.ClassN("steps", w.M.Steps)
 	if nt {
 		rec.Sample("history", map[string]any{"fee_ppk": cfg.FeePpk, "fee_mode": int(cfg.FeeMode), "mpp": cfg.MPP, "trace": m.Trace})
